@@ -10,18 +10,12 @@ Lemma r_eqb_refl r : r_eqb r r = true.
 Proof. induction r; cbn; auto. rewrite Nat.eqb_refl. auto. Qed.
 
 (* ---------- discipline ---------- *)
-Definition cache_body (c : ccall) : list ((ccall * R) -> lru -> unit -> (ccall * R) * lru) :=
-  [fun l c0 _ => let '(c', r) := lru_exec (fst l) c0 in ((fst l, r), c')].
 Lemma cache_prog_cs c : cache_prog true c = cs_prog lru unit (ccall * R) (cache_body c).
 Proof. reflexivity. Qed.
 
-Definition store_body (c : scall) : list ((scall * R) -> store -> unit -> (scall * R) * store) :=
-  [fun l o _ => let '(o', r) := store_exec (fst l) o in ((fst l, r), o')].
 Lemma store_prog_cs c : store_prog c = cs_prog store unit (scall * R) (store_body c).
 Proof. reflexivity. Qed.
 
-Definition text_body contents bad ce (c : tcall) : list (tls -> tobj -> nat -> tls * tobj) :=
-  [t_stat ce; t_read contents bad ce].
 Lemma text_prog_cs contents bad ce c : text_prog contents bad ce true c = cs_prog tobj nat tls (text_body contents bad ce c).
 Proof. reflexivity. Qed.
 
